@@ -53,6 +53,13 @@ CHECKS = {
             "descriptors are constructed directly (no compilation); realisability assumptions listed in the evidence",
             "runtime monitoring: injectivity monitor (inverse map) over enumerated inputs of the hooked mangler",
             "probe", "4/C27"),
+    "C12": ("exploration",
+            "the real Ty::can_fit_into/can_cast_to/is_weak_replaceable_by/max are run on all ordered pairs of a realisable type universe and judged "
+            "by the statement's laws; the same laws are observed behaviourally through the real CLI on all pairs of ~45 typed value expressions "
+            "(if/else with both branch orders, annotation vs cast), where an internal compiler error is also a violation.",
+            "universe construction (realisability) and the checker's own notion of 'accepted where expected' (can_fit_into + zero-sized->type)",
+            "runtime monitoring: algebraic-law oracle over enumerated inputs of the real relations + metamorphic (swapped-branch) CLI executions",
+            "probe+cli", "4/C12"),
 }
 
 NOT_YET = "check not built yet in this round (work in progress; see DESIGN.md section 4 for the plan)"
